@@ -166,8 +166,15 @@ def run(ctx):
         "leaves are told: tasks %s, calls %s, statuses %s in the exhaustive model (the values the callers in core/ send); "
         "the recorded runs and the trace validation use the full carriers; the two-update concurrency runs use three healthy "
         "states + ERROR (healthy states are interchangeable in State.X)" % (TASK_STATES, CALL_STATES, REAL_STATUSES),
-        "an update is atomic per critical section: leaf merge, one aggregator merge (under that role's lock), the unlocked "
-        "re-read of the cache + call of the parent, delivery to the ParentAdapter; forced interleavings have this granularity",
+        "an update is atomic per critical section: leaf merge; lock(role) + read + compute of an aggregator merge; the "
+        "assignment + unlock; the unlocked re-read of the cache + call of the parent; delivery to the ParentAdapter; forced "
+        "interleavings have this granularity (gates role.enter / merge.computed / role.merged). The role's write lock is an "
+        "explicit model variable; read locks (the re-read, the walk over the children) are over-approximated in the exhaustive "
+        "model (a read never waits) and avoided in the imposed schedules",
+        "lock probes: counterexamples of the model with MergeAtomic = FALSE (merge computes outside the lock), cut after the "
+        "first contended merge, are imposed on the real code: the entering update must be observed waiting (no gate reached "
+        "within 30 ms while the holder is parked inside the merge - it cannot progress, so the wait only bounds 'nothing more "
+        "happens'); an update that gets through is driven to completion first",
         "concurrent = two updates of different leaves in flight (any number of such episodes in the recorded runs, %s in the "
         "exhaustive model); free-running runs with up to 4 goroutines are checked at quiescence only" % ("1 episode"),
         "tree shapes: the 14 shapes of RoleTree!Shapes (depth <= 3, <= 5 leaves)",
@@ -454,6 +461,10 @@ def _replay_and_validate(ctx, scenarios, predicted, adapter_sid, dead_fixed, tru
                 "steps": [[st["a"], st.get("t"), st.get("leaf"), st.get("kind"), st.get("v")] for st in ex["steps"]][:30]})
     lines = ctx.read_ndjson(trace_file)
     ctx.sample({"trace_lines_of_that_scenario": [x for x in lines if x.get("scn") == ex["id"]][:4]})
+    if "lock_probes" in ctx.extra:
+        pids = ctx.extra["lock_probes"]["scenarios"]
+        ctx.extra["lock_probes"]["updates_observed_waiting_for_a_role_lock"] = sum(1 for x in lines if x.get("pc") == "blocked")
+        ctx.extra["lock_probes"]["probes_blocked"] = sorted({x["scn"] for x in lines if x.get("pc") == "blocked" and x.get("scn") in pids})
 
     # ------------------------------------------------------------------ 4. trace validation by TLC
     tcfg = cfg("TraceSpec", ["S01"], ["state", "status"], 2, 1000000, dead_fixed, trust, ["PrintEnd"], False,
